@@ -365,7 +365,9 @@ def check(ctx):
 
             ctx.paths("R16-b", rx, [("calc", f"{v} = $E"), ("use", f"await self.receive_stream.receive({v})"), ("susp", "await self.receive_stream.receive()")],
                       step_m, "", None, instance="missing byte count is fresh when used", allow_no_exit=True)
-    for r in [x for x in own_walk(rx.node) if isinstance(x, ast.Return)]:
+    reads_x = [x for x in own_walk(rx.node) if isinstance(x, (ast.Assign, ast.AnnAssign)) and x.value is not None and buf_slice(x.value) is not None]
+    # checked where the bytes are read out of the buffer (the removal that follows kills facts about the buffer before the return)
+    for r in reads_x or [x for x in own_walk(rx.node) if isinstance(x, ast.Return)]:
         ctx.require_at("R16-b", rx, r, [[f"not len(self._buffer) < {nb}"], [f"not 0 < {nb} - len(self._buffer)"]] +
                        [[f"not 0 < {k}"] for k, v in defsx.items() if lin_diff(linear(v), {nb: 1, "len(self._buffer)": -1}) == {}],
                        instance="receive_exactly returns only when the buffer holds at least nbytes", what="return")
@@ -387,14 +389,23 @@ def check(ctx):
     finds = ctx.sites(ru, "$I = self._buffer.find($D, $O)")
     if ctx.need("R16-c", ru, "`index = self._buffer.find(delimiter, offset)`", len(finds), 1):
         fs, fenv = finds[0]
-        idx, off = u(fenv["I"]), u(fenv["O"])
-        okd = ast.unparse(fenv["D"]) == delim
+        idx = u(fenv["I"])
+        # a search may start at the literal 0 (the whole buffer) or at an offset variable; there may be one search site (loop) or two
+        # (initial search + re-search after new data)
+        offnames = sorted({u(e["O"]) for _, e in finds if isinstance(e["O"], ast.Name)})
+        lit_ok = all(isinstance(e["O"], ast.Name) or (isinstance(e["O"], ast.Constant) and e["O"].value == 0) for _, e in finds)
+        ctx.ob("R16-c", ru, "every search starts at 0 or at the tracked offset", lit_ok and len(offnames) <= 1 and len({u(e["I"]) for _, e in finds}) == 1,
+               detail="" if lit_ok else "a search starts at some other position", by=("find(delimiter, 0 | offset)",))
+        off = offnames[0] if offnames else "_no_offset_variable_"
+        okd = all(ast.unparse(e["D"]) == delim for _, e in finds)
         ctx.ob("R16-c", ru, "the search looks for the caller's delimiter", okd, node=fs, detail="" if okd else f"`{norm(fs)}` searches for something else", by=(delim,))
         offs = [n for n in own_walk(ru.node) if isinstance(n, ast.Assign) and len(n.targets) == 1 and getattr(n.targets[0], "id", None) == off]
         init = [n for n in offs if isinstance(n.value, ast.Constant) and n.value.value == 0]
         upd = [n for n in offs if n not in init]
-        ctx.ob("R16-c", ru, "the search starts at the beginning of the buffer", len(init) == 1 and not lexically_inside(init[0], lambda x: isinstance(x, ast.While), stop=ru.node),
-               detail="" if init else f"`{off} = 0` is missing before the loop", by=(f"{off} = 0",))
+        first_from_zero = (len(init) == 1 and not lexically_inside(init[0], lambda x: isinstance(x, ast.While), stop=ru.node)) or \
+            any(isinstance(e["O"], ast.Constant) and not lexically_inside(s_, lambda x: isinstance(x, ast.While), stop=ru.node) for s_, e in finds)
+        ctx.ob("R16-c", ru, "the search starts at the beginning of the buffer", first_from_zero,
+               detail="" if first_from_zero else f"neither `{off} = 0` before the loop nor an initial `find(delimiter, 0)`", by=("first search from 0",))
         ctx.need("R16-c", ru, "the offset update after an unsuccessful search", len(upd), 1)
         for n in upd:
             v = n.value
@@ -459,7 +470,7 @@ def check(ctx):
     enc_p, err_p = tpi.node.args.args[1].arg, tpi.node.args.args[2].arg
     mk = ctx.sites(tpi, f"$K = codecs.getincrementaldecoder({enc_p})")
     mk2 = ctx.sites(tpi, f"self._decoder = $K(errors={err_p})") + ctx.sites(tpi, f"self._decoder = codecs.getincrementaldecoder({enc_p})(errors={err_p})")
-    ctx.ob("R16-d", tpi, "one incremental decoder for the configured encoding and error policy is created per stream", len(mk2) == 1 and (len(mk) == 1 or "getincrementaldecoder" in ast.unparse(mk2[0][0])),
+    ctx.ob("R16-d", tpi, "one incremental decoder for the configured encoding and error policy is created per stream", len(mk2) >= 1 and (len(mk) == 1 or "getincrementaldecoder" in ast.unparse(mk2[0][0])),
            detail="" if mk2 else "TextReceiveStream.__post_init__ does not create `codecs.getincrementaldecoder(encoding)(errors=errors)`", by=("getincrementaldecoder",))
     wd = [w for w in ctx.writers("_decoder", modules=[TXT]) if w[3] == "assign" and w[0] is not None]
     okw = all(w[0].qual == "TextReceiveStream.__post_init__" for w in wd) and len(wd) == 1
